@@ -26,18 +26,19 @@ type Gen struct {
 	stats   map[string]int
 	mon     *Monitor
 
-	chains   []string
-	denoms   []string
-	tokens   []tokSpec
-	accounts []string
-	vals     []valSpec
-	recips   []string
-	tag      int
-	height   int64
-	time     int64
-	nextEvt  map[string]uint64
-	extH     map[string]uint64
-	pair     [2]string // (event type, mutated field) of the hash pair being emitted
+	chains      []string
+	denoms      []string
+	tokens      []tokSpec
+	accounts    []string
+	vals        []valSpec
+	recips      []string
+	tag         int
+	height      int64
+	time        int64
+	nextEvt     map[string]uint64
+	extH        map[string]uint64
+	pair        [2]string // (event type, mutated field) of the hash pair being emitted
+	genesisMode bool
 }
 
 type tokSpec struct {
@@ -397,9 +398,28 @@ func (g *Gen) opBatchExecuted() {
 	g.voteAll(chain, fmt.Sprintf("bex %s %d %d %d 0x%s %s %s", coin, n, bn, g.eventHeight(chain), g.nextTag(), feePaid, g.pick(g.recips)))
 }
 
+func (g *Gen) dumpEverything() {
+	g.do("dump bank")
+	g.do("dump status")
+	for _, c := range g.chains {
+		for _, sec := range []string{"pool", "batches", "sets", "votes", "keys", "sigs", "counters"} {
+			g.do("dump " + sec + " " + c)
+		}
+	}
+}
+
+func (g *Gen) maybeExportImport() {
+	if g.genesisMode && g.rng.Intn(6) == 0 {
+		g.dumpEverything()
+		g.do("export_import")
+		g.dumpEverything()
+	}
+}
+
 func (g *Gen) block() {
 	g.do("end")
 	g.dumpAll()
+	g.maybeExportImport()
 	g.height += int64(1 + g.rng.Intn(2))
 	if g.rng.Intn(8) == 0 {
 		g.time += int64(40 + g.rng.Intn(200)) // may pass the outgoing timeout
@@ -499,6 +519,13 @@ func runProfile(g *Gen, profile string, nops int) {
 		g.runOracle(nops)
 	case "keys":
 		g.runKeys(nops)
+	case "genesis":
+		g.genesisMode = true
+		if g.rng.Intn(2) == 0 {
+			g.runLedger(nops)
+		} else {
+			g.runKeys(nops)
+		}
 	case "abi":
 		g.runAbi(nops)
 	case "hash":
@@ -1197,6 +1224,7 @@ func (g *Gen) runKeys(nops int) {
 			}
 		default:
 			g.do("end")
+			g.maybeExportImport()
 			g.height += int64(1 + r.Intn(3))
 			g.time += 5
 			g.do(fmt.Sprintf("block %d %d", g.height, g.time))
